@@ -190,7 +190,9 @@ func (mv mapValue) IndexValue(iv Value) Value {
 	mr := reflect.ValueOf(mv.value)
 	ir := reflect.ValueOf(iv.Interface())
 	kt := mr.Type().Key()
-	if ir.IsValid() && ir.Type().ConvertibleTo(kt) && ir.Type().Comparable() {
+	// an integer converts to a string as a code point (65 to "A"): a string-keyed map has no such entry
+	if ir.IsValid() && ir.Type().ConvertibleTo(kt) && ir.Type().Comparable() &&
+		!(kt.Kind() == reflect.String && ir.Kind() != reflect.String) {
 		er := mr.MapIndex(ir.Convert(kt))
 		if er.IsValid() {
 			return ValueOf(er.Interface())
